@@ -243,7 +243,6 @@ pub struct LevelShape {
 	pub active_wal: u64,
 	pub log_number: u64,
 	pub last_sequence: u64,
-	pub next_table_id: u64,
 }
 
 impl Tree {
@@ -315,7 +314,6 @@ impl Tree {
 		let manifest = self.core.inner.level_manifest.read()?;
 		shape.log_number = manifest.get_log_number();
 		shape.last_sequence = manifest.get_last_sequence();
-		shape.next_table_id = manifest.next_table_id();
 		for level in manifest.levels.get_levels() {
 			let mut row = Vec::new();
 			for t in level.tables.iter() {
